@@ -124,6 +124,125 @@ type env struct {
 
 	shutCancel context.CancelFunc
 	shutDone   chan struct{}
+	gen        int
+	olds       []func() // teardown of abandoned runners
+}
+
+// startRunner creates a PipelineRunner (+ HTTP handler) on the given data directory.
+func (e *env) startRunner(dataDir string) {
+	t, w := e.t, e.w
+	var err error
+	e.store, err = store.NewJSONDataStore(dataDir)
+	if err != nil {
+		t.Fatal(err)
+	}
+	w.logsDir = filepath.Join(dataDir, "logs")
+	e.ostore, err = taskctl.NewOutputStore(w.logsDir)
+	if err != nil {
+		t.Fatal(err)
+	}
+	if e.cur == nil {
+		e.cur = append([]int{}, e.sc.Init...)
+	}
+	e.ctx, e.cancel = context.WithCancel(context.Background())
+	prp := new(*prunner.PipelineRunner)
+	mk := w.createTaskRunner(prp)
+	pr, err := prunner.NewPipelineRunner(e.ctx, buildDefs(e.sc, e.cur), func(j *prunner.PipelineJob) taskctl.Runner { return mk(j) }, e.store, e.ostore)
+	if err != nil {
+		t.Fatal(err)
+	}
+	*prp = pr
+	e.pr = pr
+	auth := jwtauth.New("HS256", []byte(jwtSecret), nil)
+	_, e.token, _ = auth.Encode(map[string]interface{}{"sub": "verif"})
+	e.handler = server.NewServer(e.pr, e.ostore, func(h http.Handler) http.Handler { return h }, auth, false)
+	e.shutCancel, e.shutDone = nil, nil
+}
+
+func copyDir(src, dst string) error {
+	return filepath.Walk(src, func(p string, info os.FileInfo, err error) error {
+		if err != nil {
+			return err
+		}
+		rel, _ := filepath.Rel(src, p)
+		if info.IsDir() {
+			return os.MkdirAll(filepath.Join(dst, rel), 0o777)
+		}
+		b, err := os.ReadFile(p)
+		if err != nil {
+			return err
+		}
+		return os.WriteFile(filepath.Join(dst, rel), b, 0o644)
+	})
+}
+
+// restart: the old process is gone (its runner is abandoned and muted), a new runner starts on a copy
+// of the data directory as it is on disk right now.
+func (e *env) restart() {
+	w := e.w
+	oldDir := filepath.Dir(w.logsDir)
+	e.gen++
+	newDir := filepath.Join(e.dir, "data"+itoa(e.gen))
+	if err := copyDir(oldDir, newDir); err != nil {
+		e.t.Fatal(err)
+	}
+	w.mu.Lock()
+	w.gen = e.gen
+	oldDetail := w.detail
+	unfinished := map[int]bool{}
+	for i, jo := range w.st.Jobs {
+		unfinished[i] = !(jo.Completed || jo.Canceled)
+	}
+	// the tasks that were executing died with the old process
+	for j := range w.st.Runs {
+		for t := range w.st.Runs[j] {
+			if r := &w.st.Runs[j][t]; r.Open {
+				r.Open, r.Outcome, r.ExecAtEnd, r.EndedAt = false, "lost", true, w.nowMs()
+			}
+		}
+	}
+	w.mu.Unlock()
+	// abandon the old runner: release and cancel everything, stop its persist loop (muted)
+	oldPr, oldCancel, oldShutCancel := e.pr, e.cancel, e.shutCancel
+	e.olds = append(e.olds, func() {
+		if oldShutCancel != nil {
+			oldShutCancel()
+		}
+		ids := []uuid.UUID{}
+		oldPr.IterateJobs(func(j *prunner.PipelineJob) {
+			if !j.Completed && !j.Canceled {
+				ids = append(ids, j.ID)
+			}
+		})
+		for _, id := range ids {
+			_ = oldPr.CancelJob(id)
+		}
+		oldCancel()
+	})
+	e.olds[len(e.olds)-1]()
+	synctest.Wait()
+	e.startRunner(newDir)
+	synctest.Wait()
+	e.snapshot()
+	w.mu.Lock()
+	w.staleStore = true
+	w.st.Idle = 0
+	w.mu.Unlock()
+	w.mu.Lock()
+	for _, ji := range w.jobs {
+		jo := &w.st.Jobs[ji.idx-1]
+		jo.Faithful = oldDetail[ji.id] == w.detail[ji.id]
+		if !jo.Listed {
+			jo.Lost = true
+		}
+		if unfinished[ji.idx-1] {
+			jo.Rst = true
+		}
+	}
+	w.st.Shut = "no"
+	w.st.Forced = false
+	w.st.Phase = "run"
+	w.mu.Unlock()
 }
 
 func buildDefs(sc *Script, cur []int) *definition.PipelinesDef {
@@ -169,28 +288,8 @@ func runScript(t *testing.T, sc *Script, of io.Writer) {
 	w := &world{sc: sc, t0: time.Now(), out: json.NewEncoder(of), byID: map[uuid.UUID]*jobInfo{}}
 	e := &env{t: t, w: w, sc: sc}
 	e.dir = t.TempDir()
-	var err error
-	e.store, err = store.NewJSONDataStore(filepath.Join(e.dir, "data"))
-	if err != nil {
-		t.Fatal(err)
-	}
-	w.logsDir = filepath.Join(e.dir, "data", "logs")
-	e.ostore, err = taskctl.NewOutputStore(w.logsDir)
-	if err != nil {
-		t.Fatal(err)
-	}
-	e.cur = append([]int{}, sc.Init...)
-	e.ctx, e.cancel = context.WithCancel(context.Background())
-	e.prp = &e.pr
-	mk := w.createTaskRunner(e.prp)
-	e.pr, err = prunner.NewPipelineRunner(e.ctx, buildDefs(sc, e.cur), func(j *prunner.PipelineJob) taskctl.Runner { return mk(j) }, e.store, e.ostore)
-	if err != nil {
-		t.Fatal(err)
-	}
-	auth := jwtauth.New("HS256", []byte(jwtSecret), nil)
-	_, e.token, _ = auth.Encode(map[string]interface{}{"sub": "verif"})
-	e.handler = server.NewServer(e.pr, e.ostore, func(h http.Handler) http.Handler { return h }, auth, false)
-
+	e.gen = 0
+	e.startRunner(filepath.Join(e.dir, "data0"))
 	w.st = State{Phase: "run", Cfg: make([]CfgObs, sc.NP), Pipes: make([]PipeObs, sc.NP), Jobs: []JobObs{}, Runs: [][]RunObs{}, Stop: []StopObs{}, Ack: []AckObs{}, Logs: []bool{}, Shut: "no"}
 	w.st.Store.Jobs = []StoreJob{}
 	w.st.Last = LastObs{Op: "none", Res: "ok"}
@@ -280,6 +379,11 @@ func (e *env) step(s Step) {
 		}
 	case "save":
 		e.pr.SaveToStore()
+	case "longadv":
+		time.Sleep(3100 * time.Millisecond)
+	case "restart":
+		e.restart()
+		evk = "Restart"
 	case "shutdown":
 		if e.shutDone != nil {
 			last.Res = "skip"
@@ -304,6 +408,9 @@ func (e *env) step(s Step) {
 	case "force":
 		if e.shutCancel != nil {
 			e.shutCancel()
+			w.mu.Lock()
+			w.st.Forced = true
+			w.mu.Unlock()
 		} else {
 			last.Res = "skip"
 		}
@@ -348,7 +455,7 @@ func errClass(err error) string {
 
 func (e *env) doSchedule(s Step, last *LastObs) {
 	w := e.w
-	vars := map[string]interface{}{"n": len(w.jobs) + 1}
+	vars := payload(len(w.jobs)+1, e.sc.Seed)
 	if s.Bad == "reserved" {
 		vars[taskctl.JobIDVariableName] = "x"
 	}
@@ -397,6 +504,17 @@ func (e *env) doSchedule(s Step, last *LastObs) {
 	}
 	w.curP, w.curVer, w.curBad = 0, 0, ""
 	w.mu.Unlock()
+}
+
+// payload: job variables of the types real clients send (C10: "variable values of any JSON type")
+func payload(n int, seed int64) map[string]interface{} {
+	pool := []map[string]interface{}{
+		{"n": n},
+		{"n": n, "f": 0.1234567891, "tiny": 1e-9, "big": 1.5e300},
+		{"n": n, "s": "a\"b\nc \u00fc \u2603", "arr": []interface{}{1, 2.5, map[string]interface{}{"k": "v"}}, "b": true},
+		{"n": n, "neg": -0.000123456789, "obj": map[string]interface{}{"x": []interface{}{}, "y": 7.25}, "e": ""},
+	}
+	return pool[(int(seed)+n)%len(pool)]
 }
 
 func (e *env) doCancel(s Step, last *LastObs) {
@@ -573,6 +691,9 @@ func (e *env) drain() {
 }
 
 func (e *env) teardown() {
+	for _, f := range e.olds {
+		f()
+	}
 	// Let everything end so that the bubble can be left: release tasks, force a
 	// pending shutdown, stop the persist loop.
 	if e.shutCancel != nil {
@@ -714,9 +835,13 @@ func (e *env) snapshot() {
 	pipes := e.pr.ListPipelines()
 	// 3. by id
 	byID := map[uuid.UUID]bool{}
+	detail := map[uuid.UUID]string{}
 	for _, ji := range w.jobs {
-		c, _ := e.http("GET", "/job/detail?id="+ji.id.String(), nil)
+		c, body := e.http("GET", "/job/detail?id="+ji.id.String(), nil)
 		byID[ji.id] = c == 200
+		if c == 200 {
+			detail[ji.id] = string(body)
+		}
 	}
 	// 4. store + logs
 	data, lerr := e.store.Load()
@@ -732,6 +857,7 @@ func (e *env) snapshot() {
 	st := &w.st
 	st.Quiet = true
 	st.Extra = 0
+	w.detail = detail
 	for id := range fulls {
 		if _, ok := w.byID[id]; !ok {
 			st.Extra++
@@ -755,7 +881,9 @@ func (e *env) snapshot() {
 			continue
 		}
 		nt := len(jo.Tasks)
-		keepP, keepVer, keepEpoch, keepAcc, keepRet, keepBad, keepExtra := jo.P, jo.Ver, jo.Epoch, jo.AccAt, jo.RetAt, jo.Bad, jo.ExtraTask
+		keepP, keepVer, keepEpoch, keepAcc, keepRet, keepBad, keepExtra, keepLost, keepRst := jo.P, jo.Ver, jo.Epoch, jo.AccAt, jo.RetAt, jo.Bad, jo.ExtraTask, jo.Lost, jo.Rst
+		f.job.Age = w.nowMs() - f.job.CreatedAt
+		f.job.Faithful = true
 		tasks := make([]TaskObs, nt)
 		extra := 0
 		for pos, name := range f.names {
@@ -770,6 +898,8 @@ func (e *env) snapshot() {
 		jo.Tasks = tasks
 		jo.P, jo.Ver, jo.Epoch, jo.AccAt, jo.RetAt, jo.Bad = keepP, keepVer, keepEpoch, keepAcc, keepRet, keepBad
 		jo.ExtraTask = keepExtra + extra
+		jo.Lost = keepLost
+		jo.Rst = keepRst
 		jo.InList = jj != nil
 		jo.ListPos = jsonPos[ji.id.String()]
 		jo.ByID = byID[ji.id]
@@ -852,6 +982,27 @@ func (e *env) snapshot() {
 		st.Logs[ji.idx-1] = true
 	}
 	_ = sort.Ints
+	// idle: time since the reported jobs / pipelines last changed (ages excluded)
+	type jd struct {
+		J JobObs
+	}
+	cp := make([]JobObs, len(st.Jobs))
+	copy(cp, st.Jobs)
+	for i := range cp {
+		cp[i].Age = 0
+		cp[i].InList, cp[i].ByID, cp[i].ListPos, cp[i].JSONAgree, cp[i].Faithful = false, false, 0, false, false
+	}
+	b, _ := json.Marshal([]interface{}{cp, st.Pipes})
+	if string(b) != w.jobsDigest {
+		w.jobsDigest = string(b)
+		w.chgAt = w.nowMs()
+		w.staleStore = false
+	}
+	st.Idle = w.nowMs() - w.chgAt
+	if w.staleStore {
+		// a restarted runner marks jobs canceled while loading and does not request a save for that
+		st.Idle = 0
+	}
 }
 
 func (w *world) touchLogs(ji *jobInfo, task string) {
